@@ -10,6 +10,7 @@ use crate::config::Config;
 use crate::diagnostic_emitter::DiagnosticEmitter;
 use codespan_reporting::term::DisplayStyle;
 use mos_simrt::rng::{self, Rng};
+use mos_simrt::disk::{Fault, FaultKind, Op};
 use mos_simrt::{disk, entropy};
 use serde_json::{json, Value};
 use std::collections::{BTreeMap, BTreeSet, HashSet};
@@ -61,11 +62,14 @@ fn style_of(n: u64) -> DisplayStyle {
 
 /// One simulated fresh process: the real `build_command` against the simulated
 /// disk under the given entropy seed.
-pub fn run_build(project: &Project, entropy_seed: u64, style: u64) -> Outcome {
+pub fn run_build(project: &Project, faults: &[Fault], entropy_seed: u64, style: u64) -> Outcome {
     let project = project.clone();
+    let faults = faults.to_vec();
     let res = fresh_thread(16 << 20, move || {
         entropy::set_seed(Some(entropy_seed));
-        disk::install(project.disk());
+        let mut d0 = project.disk();
+        d0.faults = faults;
+        disk::install(d0);
         let initial: BTreeSet<_> = disk::with(|d| d.files.keys().cloned().collect()).unwrap();
         let r = std::panic::catch_unwind(std::panic::AssertUnwindSafe(|| {
             let cfg = if project.toml.is_empty() {
@@ -221,6 +225,60 @@ pub fn project_for(seed: u64, k: u64) -> Project {
     corpus::gen_hash_project(&mut r, k)
 }
 
+/// Output-side fault plan of a project (the same plan for all of its simulated processes):
+/// the build must behave identically under every hash seed also when writing fails.
+pub fn fault_plan_for(seed: u64, k: u64, p: &Project) -> Vec<Fault> {
+    let mut r = Rng::new(rng::derive(seed, "hashsim.faults", k));
+    if !r.chance(1, 4) {
+        return vec![];
+    }
+    let mut targets: Vec<String> = vec!["target/main.prg".into(), "target/main.bin".into(), "target/main.lst".into(), "target/main.vs".into(), "target/lib0.lst".into()];
+    for f in p.files.values() {
+        if let Ok(t) = std::str::from_utf8(f) {
+            for l in t.lines() {
+                if let Some(i) = l.find("filename = \"") {
+                    let rest = &l[i + 12..];
+                    if let Some(j) = rest.find('"') {
+                        targets.push(format!("target/{}", &rest[..j]));
+                    }
+                }
+            }
+        }
+    }
+    let n = r.range(1, 2);
+    let mut out = vec![];
+    for _ in 0..n {
+        let t = r.pick(&targets).clone();
+        let path = mos_simrt::disk::normalize(&Path::new(WS).join(&t));
+        if out.iter().any(|f: &Fault| f.path == path) {
+            continue;
+        }
+        out.push(Fault { path, nth: 0, op: Op::Write, kind: if r.chance(1, 2) { FaultKind::NoSpace } else { FaultKind::PermissionDenied } });
+    }
+    out
+}
+
+fn faults_json(f: &[Fault]) -> Value {
+    Value::Array(f.iter().map(|f| json!({"path": f.path.to_string_lossy(), "kind": f.kind.name()})).collect())
+}
+
+fn faults_from_json(v: Option<&Value>) -> Vec<Fault> {
+    v.and_then(|v| v.as_array())
+        .map(|a| {
+            a.iter()
+                .filter_map(|f| {
+                    Some(Fault {
+                        path: std::path::PathBuf::from(f.get("path")?.as_str()?),
+                        nth: 0,
+                        op: Op::Write,
+                        kind: if f.get("kind")?.as_str()? == "enospc" { FaultKind::NoSpace } else { FaultKind::PermissionDenied },
+                    })
+                })
+                .collect()
+        })
+        .unwrap_or_default()
+}
+
 pub fn entropy_seed_for(seed: u64, k: u64, j: u64) -> u64 {
     rng::derive(seed, "hashsim.entropy", k.wrapping_mul(1_000_003).wrapping_add(j))
 }
@@ -231,11 +289,11 @@ struct CheckResult {
     divergence: Option<(u64, u64, String, String, String)>,
 }
 
-fn check_project(p: &Project, seeds: &[u64], style: u64) -> CheckResult {
+fn check_project(p: &Project, faults: &[Fault], seeds: &[u64], style: u64) -> CheckResult {
     let mut outcomes: Vec<(u64, Outcome)> = vec![];
     let mut divergence = None;
     for s in seeds {
-        let o = run_build(p, *s, style);
+        let o = run_build(p, faults, *s, style);
         if divergence.is_none() {
             if let Some((s0, o0)) = outcomes.first() {
                 if let Some((class, sig, msg)) = classify(o0, &o) {
@@ -253,10 +311,10 @@ fn check_project(p: &Project, seeds: &[u64], style: u64) -> CheckResult {
 
 /// Shrink the project while some pair of the given entropy seeds still
 /// disagrees with the same violation class.
-fn minimise(p: &Project, seeds: &[u64], style: u64, class: &str) -> (Project, u64, u64) {
+fn minimise(p: &Project, faults: &[Fault], seeds: &[u64], style: u64, class: &str) -> (Project, u64, u64) {
     let seeds: Vec<u64> = seeds.iter().take(8).cloned().collect();
     let still = |q: &Project| -> Option<(u64, u64)> {
-        let r = check_project(q, &seeds, style);
+        let r = check_project(q, faults, &seeds, style);
         match r.divergence {
             Some((a, b, c, _, _)) if c == class => Some((a, b)),
             _ => None,
@@ -351,8 +409,9 @@ fn replay(cli: &Cli, path: &Path) -> i32 {
         eprintln!("harness error: replay file needs two entropy seeds");
         return EXIT_HARNESS;
     }
-    let a = run_build(&project, seeds[0], style);
-    let b = run_build(&project, seeds[1], style);
+    let faults = faults_from_json(v.get("write_faults"));
+    let a = run_build(&project, &faults, seeds[0], style);
+    let b = run_build(&project, &faults, seeds[1], style);
     let mut log = rng::fnv64(&a.digest().to_le_bytes());
     log = rng::fnv64_extend(log, &b.digest().to_le_bytes());
     let r = match classify(&a, &b) {
@@ -405,6 +464,8 @@ struct Acc {
     samples: Vec<(u64, Value)>,
     panics_all_seeds: BTreeMap<String, u64>,
     entropy_calls: u64,
+    projects_with_write_faults: u64,
+    write_faults_fired: u64,
 }
 
 pub fn main(cli: &Cli) -> i32 {
@@ -419,6 +480,15 @@ pub fn main(cli: &Cli) -> i32 {
     let n_seeds = cli.opt_u64("hash-seeds").unwrap_or(n_seeds).max(2);
     let seed = cli.seed;
     let determinism = cli.mode.as_deref() == Some("determinism");
+    if cli.mode.as_deref() == Some("gen") {
+        // debugging aid: print project --from and its outcome under the first entropy seed
+        let k = cli.opt_u64("from").unwrap_or(0);
+        let p = project_for(seed, k);
+        let faults = fault_plan_for(seed, k, &p);
+        let o = run_build(&p, &faults, entropy_seed_for(seed, k, 0), rng::derive(seed, "hashsim.style", k));
+        println!("{}", serde_json::to_string_pretty(&json!({"project": p.to_json(), "write_faults": faults_json(&faults), "outcome": o.to_json()})).unwrap());
+        return EXIT_OK;
+    }
     let mut ev = Evidence::new(PROP, cli);
 
     let (acc, _done) = par_fold(
@@ -430,7 +500,11 @@ pub fn main(cli: &Cli) -> i32 {
             let p = project_for(seed, k);
             let seeds: Vec<u64> = (0..n_seeds).map(|j| entropy_seed_for(seed, k, j)).collect();
             let style = rng::derive(seed, "hashsim.style", k);
-            let r = check_project(&p, &seeds, style);
+            let faults = fault_plan_for(seed, k, &p);
+            if !faults.is_empty() {
+                acc.projects_with_write_faults += 1;
+            }
+            let r = check_project(&p, &faults, &seeds, style);
             acc.projects += 1;
             acc.builds += r.outcomes.len() as u64;
             let kind = p.label.split(':').nth(1).unwrap_or("?").to_string();
@@ -442,6 +516,9 @@ pub fn main(cli: &Cli) -> i32 {
                 *acc.status_counts.entry(o.status.clone()).or_insert(0) += 1;
                 h = rng::fnv64_extend(h, &o.digest().to_le_bytes());
                 acc.entropy_calls += o.entropy_calls;
+                if o.diag.contains("failed to create") {
+                    acc.write_faults_fired += 1;
+                }
             }
             acc.digests.push((k, h));
             let o0 = &r.outcomes[0].1;
@@ -471,10 +548,10 @@ pub fn main(cli: &Cli) -> i32 {
                 }
                 // keep at most a few per worker; minimise now (deterministic)
                 if acc.violations.iter().filter(|v| v.sig == sig).count() == 0 {
-                    let (mp, ma, mb) = minimise(&p, &seeds, style, &class);
+                    let (mp, ma, mb) = minimise(&p, &faults, &seeds, style, &class);
                     // recompute signature on the minimised project
-                    let a = run_build(&mp, ma, style);
-                    let b = run_build(&mp, mb, style);
+                    let a = run_build(&mp, &faults, ma, style);
+                    let b = run_build(&mp, &faults, mb, style);
                     let (class2, sig2, msg2) =
                         classify(&a, &b).unwrap_or((class.clone(), sig.clone(), msg.clone()));
                     acc.violations.push(Violation {
@@ -492,6 +569,7 @@ pub fn main(cli: &Cli) -> i32 {
                             "project_index": k,
                             "style": style,
                             "project": mp.to_json(),
+                            "write_faults": faults_json(&faults),
                             "entropy_seeds": [format!("{:#x}", ma), format!("{:#x}", mb)],
                             "original_project": p.to_json(),
                         }),
@@ -517,6 +595,8 @@ pub fn main(cli: &Cli) -> i32 {
             t.digests.extend(a.digests);
             t.samples.extend(a.samples);
             t.entropy_calls += a.entropy_calls;
+            t.projects_with_write_faults += a.projects_with_write_faults;
+            t.write_faults_fired += a.write_faults_fired;
         },
     );
     let mut acc = acc;
@@ -547,7 +627,7 @@ pub fn main(cli: &Cli) -> i32 {
     ev.set("interleaving_measure", json!("distinct iteration orders of an 8-element canary HashSet created under each simulated process's keys"));
     ev.set("result_kinds", json!(acc.status_counts));
     ev.set("project_kinds", json!(acc.kinds));
-    ev.set("fault_kinds_injected", json!({"hash_seed_change": acc.builds, "entropy_calls_served": acc.entropy_calls}));
+    ev.set("fault_kinds_injected", json!({"hash_seed_change": acc.builds, "entropy_calls_served": acc.entropy_calls, "projects_with_output_write_faults (enospc/eacces on an output file, same plan for all seeds)": acc.projects_with_write_faults, "builds_that_failed_writing": acc.write_faults_fired}));
     ev.set("panics_under_all_seeds_not_judged_here", json!(acc.panics_all_seeds));
     ev.set("batch_hash", json!(format!("{:016x}", batch)));
     ev.set("simulated_time_ms", json!(0));
